@@ -226,3 +226,78 @@ Theorem reader_count_eq_elapsed_periods_refuted :
   exists D t0 ws, 0 < D /\ nondecr t0 ws /\ reader_known D t0 ws = true /\
     d_count (rrun D (map Wake ws) (dinit t0)) = 3 /\ elapsed_periods D (last ws t0 - t0) = 2.
 Proof. exists 100, 0, [150; 200; 250]. cbn [nondecr]. repeat split; try lia; vm_compute; reflexivity. Qed.
+
+(* ------------------------------------------------------------------ tie to the (sec, nanosec) model *)
+(* The per-instance rules above are the ones of Sched/WorkerModel.v (which keeps the code's
+   Duration/Time representation and saturating arithmetic) read in nanoseconds, as long as
+   the seconds stay away from the i32 clamp. *)
+From DustDDS Require Import Time.TimeModel Time.TimeProofs Sched.WorkerModel.
+
+Definition small (d : dur) : Prop := normalized d /\ -536870912 <= sec d <= 536870912.
+
+Lemma small_add_exact a b : small a -> small b -> nanos (dur_add a b) = nanos a + nanos b.
+Proof.
+  intros [Na Sa] [Nb Sb]. apply add_exact; try assumption.
+  destruct a as [sa na], b as [sb nb]. unfold normalized, NS in *. cbn [sec nanosec] in *.
+  unfold add_saturates; cbn [sec nanosec]. apply orb_false_iff. split; apply negb_false_iff, in_i32b_true;
+    unfold in_i32, i32_min, i32_max, NS; lia.
+Qed.
+Lemma small_sub_exact a b : small a -> small b -> nanos (dur_sub a b) = nanos a - nanos b.
+Proof.
+  intros [Na Sa] [Nb Sb]. apply sub_exact; try assumption.
+  destruct a as [sa na], b as [sb nb]. unfold normalized, NS in *. cbn [sec nanosec] in *.
+  unfold sub_saturates; cbn [sec nanosec]. apply orb_false_iff. split; apply negb_false_iff, in_i32b_true;
+    unfold in_i32, i32_min, i32_max; destruct (na - nb <? 0); lia.
+Qed.
+Lemma dur_new_norm d : normalized d -> dur_new (sec d) (nanosec d) = d.
+Proof. destruct d as [s n]. intros [H1 H2]. cbn [sec nanosec]. apply dur_new_normalized; assumption. Qed.
+Lemma small_time_sub_exact a b : small a -> small b -> nanos (time_sub a b) = nanos a - nanos b.
+Proof.
+  intros Ha Hb. unfold time_sub. rewrite (dur_new_norm a (proj1 Ha)), (dur_new_norm b (proj1 Hb)).
+  apply small_sub_exact; assumption.
+Qed.
+Lemma dur_ltb_nanos a b : normalized a -> normalized b -> dur_ltb a b = (nanos a <? nanos b).
+Proof.
+  intros Na Nb. unfold dur_ltb. destruct (dur_leb b a) eqn:E.
+  - assert (H : dur_le b a).
+    { unfold dur_leb in E. unfold dur_le. apply orb_true_iff in E. destruct E as [E|E];
+        [apply Z.ltb_lt in E; left; exact E | apply andb_true_iff in E; destruct E as [E1 E2];
+         apply Z.eqb_eq in E1; apply Z.leb_le in E2; right; split; assumption]. }
+    apply (dur_le_nanos b a Nb Na) in H. symmetry. apply Z.ltb_ge. exact H.
+  - assert (H : ~ dur_le b a).
+    { intros H. unfold dur_le in H. unfold dur_leb in E. apply orb_false_iff in E. destruct E as [E1 E2].
+      apply Z.ltb_ge in E1. destruct H as [H|[H1 H2]]; [lia|].
+      rewrite H1, Z.eqb_refl in E2. cbn [andb] in E2. apply Z.leb_gt in E2. lia. }
+    symmetry. apply Z.ltb_lt. destruct (Z.lt_ge_cases (nanos a) (nanos b)) as [X|X]; [exact X|].
+    exfalso. apply H. apply (dur_le_nanos b a Nb Na). exact X.
+Qed.
+
+Lemma small_time_sub_norm a b : small a -> small b -> normalized (time_sub a b).
+Proof.
+  intros [[A1 A2] _] [[B1 B2] _]. apply time_sub_normalized; split; try assumption;
+    unfold in_u32, u32_max, NS in *; lia.
+Qed.
+
+(* check_missed_writer_deadline on one instance (WorkerModel.check_inst) is wstep in ns *)
+Theorem check_inst_refines_wstep now dl t key :
+  small now -> small t -> small dl ->
+  let '(i', n) := check_inst now dl (mkSI key (Some t)) in
+  let s' := wstep (nanos dl) (mkD (nanos t) 0 []) (Wake (nanos now)) in
+  option_map nanos (si_last i') = Some (d_t s') /\ n = d_count s'.
+Proof.
+  intros Hn Ht Hd. pose proof (small_time_sub_norm now t Hn Ht) as Hts. unfold check_inst; cbn [si_last si_key]. unfold wstep; cbn [d_t d_count d_signals].
+  rewrite (dur_ltb_nanos dl (time_sub now t) (proj1 Hd) Hts).
+  rewrite (small_time_sub_exact now t Hn Ht).
+  destruct (nanos dl <? nanos now - nanos t); cbn [si_last option_map d_t d_count].
+  - rewrite (small_add_exact t dl Ht Hd). split; reflexivity.
+  - split; reflexivity.
+Qed.
+
+(* the overdue test of check_missed_reader_deadline is the one of rstep in ns *)
+Theorem reader_overdue_refines_rstep now dl last :
+  small now -> small last -> small dl ->
+  dur_ltb dl (time_sub now last) = (nanos dl <? nanos now - nanos last).
+Proof.
+  intros Hn Hl Hd. pose proof (small_time_sub_norm now last Hn Hl) as Hts. rewrite (dur_ltb_nanos dl (time_sub now last) (proj1 Hd) Hts).
+  rewrite (small_time_sub_exact now last Hn Hl). reflexivity.
+Qed.
